@@ -165,6 +165,7 @@ def make_machine(max_n: int):
 
         def _do(self, op):
             self.case["ops"].append(op)
+            self.ctx.current_case = self.case
             self.sim.apply(op, self.res)
 
         def _k(self, data, n):
